@@ -407,11 +407,32 @@ impl<'a> Gen<'a> {
         } else {
             self.val(c.ty, false)
         };
-        Atom::Cmp {
+        // occasionally a constant of another numeric type, or the NULL literal
+        let val = if self.rng.chance(1, 16) {
+            match (c.ty, self.rng.usize(3)) {
+                (_, 0) => Val::Null,
+                (Ty::Int | Ty::SmallInt | Ty::BigInt, 1) => match &val {
+                    Val::Int(k) => Val::F(*k as f64 + 0.5),
+                    _ => val,
+                },
+                (Ty::Int | Ty::SmallInt, _) => Val::Int(*self.rng.pick(&[5_000_000_000i64, -5_000_000_000])),
+                (Ty::Double | Ty::Decimal, _) => Val::Int(self.rng.range(-3, 12)),
+                _ => val,
+            }
+        } else {
+            val
+        };
+        let a = Atom::Cmp {
             col: c.name.clone(),
             op,
             val,
+        };
+        if self.rng.chance(1, 10) {
+            if let Atom::Cmp { col, op, val } = a.clone() {
+                return Atom::CmpFlipped { col, op, val };
+            }
         }
+        a
     }
 
     pub fn gen_pred(&mut self, def: &TableDef, allow_empty: bool) -> Pred {
